@@ -40,7 +40,7 @@ fn main() {
         "listen" => {
             let addr = args.get(2).expect("address");
             let idle: u64 = args.get(3).and_then(|s| s.parse().ok()).unwrap_or(0);
-            let (svc, _p) = vl_model::svc::t_service();
+            let (svc, _p) = vl_model::svc::t_service_with(true);
             let r = varlink::listen(svc, addr, &varlink::ListenConfig { idle_timeout: idle, ..Default::default() });
             std::process::exit(match r {
                 Ok(()) => 0,
@@ -67,7 +67,7 @@ fn main() {
             }
             let addr = env("VARLINK_ADDRESS").unwrap_or_else(|| args.get(2).cloned().unwrap_or_default());
             let idle: u64 = env("VL_IDLE").and_then(|s| s.parse().ok()).unwrap_or(3);
-            let (svc, _p) = vl_model::svc::t_service();
+            let (svc, _p) = vl_model::svc::t_service_with(true);
             let r = varlink::listen(svc, &addr, &varlink::ListenConfig { idle_timeout: idle, ..Default::default() });
             std::process::exit(match r {
                 Ok(()) => 0,
@@ -79,7 +79,7 @@ fn main() {
             });
         }
         "stdio" => {
-            let (svc, _p) = vl_model::svc::t_service();
+            let (svc, _p) = vl_model::svc::t_service_with(true);
             let mut stdin = std::io::stdin();
             let mut stdout = std::io::stdout();
             let mut pending: Vec<u8> = vec![];
@@ -169,6 +169,34 @@ fn main() {
                     let _ = std::fs::remove_file(a.split(';').next().unwrap_or(a));
                 }
             }
+        }
+        "resolver" => {
+            // vl-svc resolver <address> <json: {"interface": "address", ...}>
+            use varlink_stdinterfaces::org_varlink_resolver as r;
+            struct Res {
+                map: std::collections::BTreeMap<String, String>,
+            }
+            impl r::VarlinkInterface for Res {
+                fn get_info(&self, call: &mut dyn r::Call_GetInfo) -> varlink::Result<()> {
+                    call.reply(
+                        "org.verif.resolver-vendor".into(),
+                        "harness resolver".into(),
+                        "7".into(),
+                        "http://resolver.invalid/".into(),
+                        self.map.keys().cloned().collect(),
+                    )
+                }
+                fn resolve(&self, call: &mut dyn r::Call_Resolve, interface: String) -> varlink::Result<()> {
+                    match self.map.get(&interface) {
+                        Some(a) => call.reply(a.clone()),
+                        None => call.reply_interface_not_found(interface),
+                    }
+                }
+            }
+            let addr = args.get(2).expect("address");
+            let map: std::collections::BTreeMap<String, String> = serde_json::from_str(args.get(3).expect("map")).expect("json map");
+            let svc = varlink::VarlinkService::new("org.verif", "resolver", "1", "http://x", vec![Box::new(r::new(Box::new(Res { map })))]);
+            let _ = varlink::listen(svc, addr, &varlink::ListenConfig::default());
         }
         "activate-client" | "bridge-client" => {
             // a fresh process (descriptors 0-2 only) that first opens <n> placeholder descriptors,
